@@ -9,7 +9,7 @@ stages:
   {'op':'pool','kind':'max'|'avg'}
   {'op':'relu'}                                            stand-alone ReLU
   {'op':'twice','pool':bool}                                relu(conv(T)) [-> maxpool] -> relu(conv(.)) with the SAME conv (c -> c)
-  {'op':'sn','branches':[b...], 'twice': bool, 'gumbel': bool, 'hard': bool}
+  {'op':'sn','branches':[b...], 'twice': bool | 'pool' (second invocation after a 2x2 max-pooling), 'gumbel': bool, 'hard': bool}
         SuperNetModule; branch kinds: 'c3' conv3x3, 'c1' conv1x1, 'c5' conv5x5, 'seq' Sequential(conv3x3, BN, ReLU),
         'c3s2' / 'poolconv' / 'convpool' / 'bneck': down-sampling branches (stride-2 conv; pool -> conv1x1; conv3x3 -> pool; 1x1 -> strided dw -> 1x1),
         'blk' user block (conv3x3 -> relu -> conv1x1) ending in a sub-module call, 'fblk' user block ending in a functional relu,
@@ -212,6 +212,8 @@ class Net2d(nn.Module):
                 self.blocks[f's{i}'] = SuperNetModule([make_branch(b, c, co) for b in st['branches']],
                                                       gumbel_softmax=st.get('gumbel', False),
                                                       hard_softmax=st.get('hard', False))
+                if st.get('twice') == 'pool':     # second invocation at half the resolution
+                    self.blocks[f's{i}p'] = MaxP(2)
                 c = co
             else:
                 raise ValueError(op)
@@ -268,7 +270,9 @@ class Net2d(nn.Module):
                 x = torch.relu(self.blocks[f's{i}'](x))
             elif op == 'sn':
                 x = self.blocks[f's{i}'](x)
-                if st.get('twice'):
+                if st.get('twice') == 'pool':
+                    x = self.blocks[f's{i}'](self.blocks[f's{i}p'](torch.relu(x)))
+                elif st.get('twice'):
                     x = self.blocks[f's{i}'](torch.relu(x))
         return x
 
